@@ -2,7 +2,7 @@
    Partial by design (DESIGN §C14): the eigen solvers are certificate-checked oracles in the correspondence. *)
 From Coq Require Import List Arith Bool Reals Ring Permutation Sorted.
 From PV Require Import Base.Index Base.Sum Np.Array Model.Sparse Model.Repr Model.C01Conv Model.C01Coo Model.C01Ttm Np.NpR Model.C14Nvecs Model.C14Gram Proofs.C14Sums
-                       Proofs.C14Split Proofs.C14GramSp Proofs.C14GramT Proofs.C14Post Model.C14Unfold Proofs.C14Unfold Model.C01Unique Model.C14SpPath Proofs.C14Coo Proofs.C14SpPath Model.C14SpChain Proofs.C14SpChain Model.C14SpPost Proofs.C14SpPost.
+                       Proofs.C14Split Proofs.C14GramSp Proofs.C14GramT Proofs.C14Post Model.C14Unfold Proofs.C14Unfold Model.C01Unique Model.C14SpPath Proofs.C14Coo Proofs.C14SpPath Model.C14SpChain Proofs.C14SpChain Model.C14SpPost Proofs.C14SpPost Model.C14CpTucker Proofs.C14CpTucker Proofs.C14KyFan.
 Import ListNotations.
 
 Section C14_ring.
@@ -21,6 +21,20 @@ Theorem C14_gram_kruskal : forall (K : ktensor V) (n a b : nat),
   n < length (kfactors K) -> a < nrows (nth n (kfactors K) []) -> b < nrows (nth n (kfactors K) []) ->
   mget v0 (gram_k_impl v0 vadd vmul K n) a b = gram_spec v0 vadd vmul (kshape K) (den_k v0 v1 vadd vmul K) n a b.
 Proof. exact (gram_kruskal V v0 v1 vadd vmul vsub vopp Vring). Qed.
+
+(* wave 5 — a CP model written in Tucker form (superdiagonal core of the weights next to the Kruskal tensor's own factor matrices; the
+   input class of seeded change C14-J): it denotes the Kruskal tensor it was built from — every ring, shape, rank, number of modes,
+   whatever the factor matrices look like (unit-norm non-orthogonal columns included) … *)
+Theorem C14_cp_as_tucker_den : forall (K : ktensor V) (i : idx),
+  den_t v0 v1 vadd vmul (cp_as_tucker v0 vadd K) i = den_k v0 v1 vadd vmul K i.
+Proof. exact (cp_as_tucker_den V v0 v1 vadd vmul vsub vopp Vring). Qed.
+(* … hence ttensor.nvecs (through the core) and ktensor.nvecs (through the factor Gram matrices) hand the SAME matrix to the solver *)
+Theorem C14_cp_tucker_same_gram : forall (K : ktensor V) (n a b : nat),
+  Forall (fun A => ncols A = krank K) (kfactors K) -> n < length (kfactors K) ->
+  a < nrows (nth n (kfactors K) []) -> b < nrows (nth n (kfactors K) []) ->
+  mget v0 (gram_t_impl v0 v1 vadd vmul (cp_as_tucker v0 vadd K) n) a b = mget v0 (gram_k_impl v0 vadd vmul K n) a b /\
+  mget v0 (gram_k_impl v0 vadd vmul K n) a b = gram_spec v0 vadd vmul (kshape K) (den_k v0 v1 vadd vmul K) n a b.
+Proof. exact (cp_tucker_same_gram V v0 v1 vadd vmul vsub vopp Vring). Qed.
 
 (* sparse: the COO product sptensor.nvecs forms from the stored nonzeros (row key = F-order linear index of the other modes'
    subscripts, column = mode-n subscript) = the same function of the denotation den_sp — any stored order *)
@@ -49,6 +63,16 @@ Theorem C14_gram_dense_code_spec : forall (X : dense V) (n a b : nat), wf_dense 
   a < nth n (dshape X) 0 -> b < nth n (dshape X) 0 ->
   exists Y, gram_dense_tm v0 vadd vmul X n = Some Y /\ mget v0 Y a b = gram_spec v0 vadd vmul (dshape X) (den_dense v0 X) n a b.
 Proof. exact (gram_dense_tm_spec V v0 vadd vmul). Qed.
+
+(* wave 5 — tensor.nvecs after /repo 08011d5 (finding C10-N03 repaired): `ttb.tensor(self.double(), copy=False)` comes first, so for a
+   holder of ANY element type B (bool, int8 ... uint16, float32) with conversion dbl : B -> V the matrix handed to the solver is the
+   Gram matrix IN V of the converted entries — gram_spec of i |-> dbl (X i) — whatever B's own arithmetic would make of the products *)
+Theorem C14_gram_dense_held : forall (B : Type) (b0 : B) (dbl : B -> V) (X : dense B) (n a b : nat),
+  dbl b0 = v0 -> wf_dense X -> n < length (dshape X) -> a < nth n (dshape X) 0 -> b < nth n (dshape X) 0 ->
+  exists Y, gram_dense_held v0 vadd vmul dbl X n = Some Y /\
+    Y = gram_dense_impl v0 vadd vmul (t_double dbl X) n /\
+    mget v0 Y a b = gram_spec v0 vadd vmul (dshape X) (fun i => dbl (den_dense b0 X i)) n a b.
+Proof. exact (@gram_dense_held_spec V v0 vadd vmul). Qed.
 
 (* ttensor.nvecs with a dense core as the code runs it: H = core.ttm(V) is tensor.ttm over all modes (C02's permute / reshape /
    matmul algorithm, theorem C01_tucker_impl), HnT and GnT are `to_tenmat(cdims=[n]).double()` through the generated
@@ -91,14 +115,15 @@ Theorem C14_coo_product : forall (C : coo V) (K N a b : nat), coo_shape C = [K; 
   Forall (fun rc => inb [K; N] rc = true) (coo_subs C) ->
   coo_gram v0 vadd vmul (coo_triples C) a b = sum_n v0 vadd K (fun k => vmul (den_coo v0 vadd C [k; a]) (den_coo v0 vadd C [k; b])).
 Proof. exact (coo_gram_den V v0 v1 vadd vmul vsub vopp Vring). Qed.
-(* wave 3b / 4 — sptensor.nvecs as the code runs it (after /repo f3d6beb, the repair of finding C14-F2): old = setdiff1d(arange(N), n);
-   reshape((prod(shape[old]), 1), old) and the second reshape(shape[:2]) both transliterated over the GENERATED tt_sub2ind / tt_ind2sub
-   (regenerated from pyttb_utils.py on every run), C01's spmatrix(), transpose(): for every tensor with at least two modes, unless mode n
-   AND the product of the other modes are both 1, the request is accepted and tnt holds, in the stored order, exactly the triples
-   (F-order key of the other modes' subscripts, mode-n subscript, value) C14_gram_sparse speaks about *)
+(* wave 3b / 4 / 5 — sptensor.nvecs as the code runs it (after /repo f3d6beb, 453f75b, c11bcb2: findings C14-F2, C19-N23, C14-F3
+   repaired): the mode range test, old = setdiff1d(arange(N), n); reshape((prod(shape[old]), 1), old) — for a 1-way tensor (old empty)
+   reshape((I_n, 1, 1)) over all modes — and the second reshape(shape[:2]), all transliterated over the GENERATED tt_sub2ind / tt_ind2sub
+   (regenerated from pyttb_utils.py on every run), C01's spmatrix(), transpose(): for EVERY tensor and existing mode (1-way tensors
+   included), unless mode n AND the product of the other modes are both 1, the request is accepted and tnt holds, in the stored order,
+   exactly the triples (F-order key of the other modes' subscripts, mode-n subscript, value) C14_gram_sparse speaks about *)
 Theorem C14_sparse_rekey_bridge : forall (S : sparse V) (n : nat),
   let s := sshape S in
-  n < length s -> 2 <= length s -> length (ssubs S) = length (svals S) -> Forall (fun i => inb s i = true) (ssubs S) ->
+  n < length s -> length (ssubs S) = length (svals S) -> Forall (fun i => inb s i = true) (ssubs S) ->
   ~ (nth n s 0 = 1 /\ size (remove_nth n s) = 1) ->
   exists C, sp_nvecs_tnt S n = Some C /\ coo_shape C = [size (remove_nth n s); nth n s 0] /\
             Forall (fun rc => inb (coo_shape C) rc = true) (coo_subs C) /\
@@ -108,7 +133,7 @@ Proof. exact (sp_triples_bridge V). Qed.
 (* hence y = tnt.T.dot(tnt) formed on that code path IS gram_sp_impl … *)
 Theorem C14_gram_sparse_code : forall (S : sparse V) (n : nat),
   let s := sshape S in
-  n < length s -> 2 <= length s -> length (ssubs S) = length (svals S) -> Forall (fun i => inb s i = true) (ssubs S) ->
+  n < length s -> length (ssubs S) = length (svals S) -> Forall (fun i => inb s i = true) (ssubs S) ->
   ~ (nth n s 0 = 1 /\ size (remove_nth n s) = 1) ->
   gram_sp_code_path v0 vadd vmul S n = Some (gram_sp_impl v0 vadd vmul S n).
 Proof. exact (gram_sp_code_path_eq V v0 vadd vmul). Qed.
@@ -117,7 +142,7 @@ Proof. exact (gram_sp_code_path_eq V v0 vadd vmul). Qed.
    bridge) and gram_spec of the denotation den_sp *)
 Theorem C14_gram_sparse_code_spec : forall (S : sparse V) (n a b : nat),
   let s := sshape S in
-  wf_sp isz S -> n < length s -> 2 <= length s -> ~ (nth n s 0 = 1 /\ size (remove_nth n s) = 1) -> a < nth n s 0 -> b < nth n s 0 ->
+  wf_sp isz S -> n < length s -> ~ (nth n s 0 = 1 /\ size (remove_nth n s) = 1) -> a < nth n s 0 -> b < nth n s 0 ->
   exists C Y, sp_nvecs_tnt S n = Some C /\ coo_shape C = [size (remove_nth n s); nth n s 0] /\
     gram_sp_code_path v0 vadd vmul S n = Some Y /\
     mget v0 Y a b = sum_n v0 vadd (size (remove_nth n s)) (fun k => vmul (den_coo v0 vadd C [k; a]) (den_coo v0 vadd C [k; b])) /\
@@ -129,7 +154,7 @@ Proof. exact (gram_sp_code_path_spec V v0 v1 vadd vmul vsub vopp Vring isz). Qed
    solver is gram_sp_impl = gram_spec of the denotation (the 1 x 1 matrix of the squared norm when mode n is the singleton) *)
 Theorem C14_sparse_singleton_answered : forall (S : sparse V) (n : nat),
   let s := sshape S in
-  wf_sp isz S -> n < length s -> 2 <= length s ->
+  wf_sp isz S -> n < length s ->
   (nth n s 0 = 1 /\ 1 < size (remove_nth n s)) \/ (1 < nth n s 0 /\ size (remove_nth n s) = 1) ->
   exists C Y, sp_nvecs_tnt S n = Some C /\ coo_shape C = [size (remove_nth n s); nth n s 0] /\
     gram_sp_code_path v0 vadd vmul S n = Some Y /\ Y = gram_sp_impl v0 vadd vmul S n /\
@@ -142,6 +167,24 @@ Theorem C14_sparse_all_singleton_refused : forall (S : sparse V) (n : nat),
   let s := sshape S in
   n < length s -> nth n s 0 = 1 -> size (remove_nth n s) = 1 -> sp_nvecs_tnt S n = None.
 Proof. exact (sp_nvecs_tnt_all_singleton V). Qed.
+
+(* wave 5 — finding C19-N23 repaired in /repo 453f75b: a mode that does not exist (n >= ndims, or negative as Python passes it) is
+   refused by the range test before anything is built (before, np.setdiff1d ignored it and a 1 x 1 Gram matrix was answered) *)
+Theorem C14_sparse_mode_refused : forall (S : sparse V) (n : Z),
+  (n < 0 \/ Z.of_nat (length (sshape S)) <= n)%Z -> sp_nvecs_tnt_z S n = None.
+Proof. exact (sp_nvecs_tnt_z_refused V). Qed.
+Theorem C14_sparse_mode_nat : forall (S : sparse V) (n : nat), sp_nvecs_tnt_z S (Z.of_nat n) = sp_nvecs_tnt S n.
+Proof. exact (sp_nvecs_tnt_z_nat V). Qed.
+
+(* wave 5 — finding C14-F3 (repaired in /repo c11bcb2) as the positive theorem: a 1-way sparse tensor with at least two entries is
+   ANSWERED: tnt is the 1 x I row of the stored values (stored order) and the matrix handed to the solver is gram_sp_impl = the outer
+   product x x^T = gram_spec of the denotation *)
+Theorem C14_sparse_oneway_answered : forall (S : sparse V) (I : nat),
+  wf_sp isz S -> sshape S = [I] -> 1 < I ->
+  exists Y, sp_nvecs_tnt S 0 = Some (mkCoo [1; I] (map (fun j => [0; nth 0 j 0]) (ssubs S)) (svals S)) /\
+    gram_sp_code_path v0 vadd vmul S 0 = Some Y /\ Y = gram_sp_impl v0 vadd vmul S 0 /\
+    forall a b, a < I -> b < I -> mget v0 Y a b = gram_spec v0 vadd vmul [I] (den_sp v0 S) 0 a b.
+Proof. exact (sp_oneway_answered V v0 v1 vadd vmul vsub vopp Vring isz). Qed.
 
 (* wave 3b — the multi-mode sptensor.ttm chain H = core.ttm(V) of the sparse-core branch as the code runs it: first mode by the
    coordinate-level kernel of sptensor.ttm (C02_ttm_sparse; its ndarray result goes through from_array / to_sptensor / to_tensor),
@@ -173,6 +216,9 @@ Print Assumptions C14_gram_sparse_code.
 Print Assumptions C14_gram_sparse_code_spec.
 Print Assumptions C14_sparse_singleton_answered.
 Print Assumptions C14_sparse_all_singleton_refused.
+Print Assumptions C14_sparse_mode_refused.
+Print Assumptions C14_sparse_mode_nat.
+Print Assumptions C14_sparse_oneway_answered.
 Print Assumptions C14_sparse_ttm_chain.
 Print Assumptions C14_gram_tucker_sparse_core_code.
 Print Assumptions C14_gram_tucker_sparse_core_code_spec.
@@ -181,9 +227,12 @@ Print Assumptions C14_gram_tucker_sparse_core.
 Print Assumptions C14_gram_tucker_sparse_core_spec.
 Print Assumptions C14_gram_dense_code.
 Print Assumptions C14_gram_dense_code_spec.
+Print Assumptions C14_gram_dense_held.
 Print Assumptions C14_gram_tucker_code.
 Print Assumptions C14_gram_tucker_code_spec.
 Print Assumptions C14_gram_dense.
+Print Assumptions C14_cp_as_tucker_den.
+Print Assumptions C14_cp_tucker_same_gram.
 Print Assumptions C14_gram_kruskal.
 Print Assumptions C14_gram_sparse.
 Print Assumptions C14_gram_tucker.
@@ -195,6 +244,13 @@ Example C14_example_gram_sparse :
   gram_matrix 0 Nat.add Nat.mul [2; 3; 2] (den_sp 0 S) 0 = [[20; 20]; [20; 34]] /\
   gram_matrix 0 Nat.add Nat.mul [2; 3; 2] (den_sp 0 S) 1 = [[13; 0; 15]; [0; 0; 0]; [15; 0; 41]].
 Proof. exact gram_sparse_example. Qed.
+Example C14_example_cp_tucker :
+  let K := mkK [2; 3] [[[1; 1]; [0; 1]; [2; 0]]; [[1; 2]; [1; 1]]] in
+  ddata (tcore (cp_as_tucker 0 Nat.add K)) = [2; 0; 0; 3] /\
+  gram_t_impl 0 1 Nat.add Nat.mul (cp_as_tucker 0 Nat.add K) 0 = gram_k_impl 0 Nat.add Nat.mul K 0 /\
+  gram_k_impl 0 Nat.add Nat.mul K 0 = [[89; 63; 52]; [63; 45; 36]; [52; 36; 32]] /\
+  gram_matrix 0 Nat.add Nat.mul [3; 2] (den_k 0 1 Nat.add Nat.mul K) 0 = [[89; 63; 52]; [63; 45; 36]; [52; 36; 32]].
+Proof. exact cp_tucker_example. Qed.
 Example C14_example_gram_tucker :
   let T := mkT (mkDense [2; 1; 2] [1; 2; 0; 3]) [[[1; 0]; [2; 1]; [0; 1]]; [[2]; [1]]; [[1; 1]; [0; 2]]] in
   gram_t_impl 0 1 Nat.add Nat.mul T 0 = gram_matrix 0 Nat.add Nat.mul (tshape T) (den_t 0 1 Nat.add Nat.mul T) 0 /\
@@ -212,6 +268,14 @@ Example C14_example_gram_code :
    gram_t_tm 0 Nat.add Nat.mul T 1 = Some [[588; 294]; [294; 147]] /\
    gram_t_tm 0 Nat.add Nat.mul T 0 = Some (gram_t_impl 0 1 Nat.add Nat.mul T 0)).
 Proof. exact gram_tm_example. Qed.
+
+(* a logical holder is answered; a uint8-like holder (arithmetic modulo 256) — the Gram matrix is formed AFTER the conversion: 50000,
+   1300, not 80, 20 as the products would be in the holder's own type *)
+Example C14_example_gram_held :
+  gram_dense_held 0%Z Z.add Z.mul (fun b : bool => if b then 1%Z else 0%Z) (mkDense [2; 2] [true; false; true; true]) 0 = Some [[2; 1]; [1; 1]]%Z /\
+  gram_dense_held 0%Z Z.add Z.mul (fun x : Z => x) (mkDense [2; 2] [200; 3; 100; 7]%Z) 0 = Some [[50000; 1300]; [1300; 58]]%Z /\
+  gram_dense_tm 0%Z (fun x y => (x + y) mod 256)%Z (fun x y => (x * y) mod 256)%Z (mkDense [2; 2] [200; 3; 100; 7]%Z) 0 = Some [[80; 20]; [20; 58]]%Z.
+Proof. exact gram_held_example. Qed.
 
 Example C14_example_gram_sparse_core :
   let GS := mkSp [2; 1; 2] [[1; 0; 1]; [0; 0; 0]; [1; 0; 0]] [3; 1; 2] in
@@ -241,6 +305,11 @@ Example C14_example_sparse_code_path :
   sp_nvecs_tnt (mkSp [3; 1] [[0; 0]; [2; 0]] [2; 3]) 0 = Some (mkCoo [1; 3] [[0; 0]; [0; 2]] [2; 3]) /\
   gram_sp_code_path 0 Nat.add Nat.mul (mkSp [3; 1] [[0; 0]; [2; 0]] [2; 3]) 0 = Some [[4; 0; 6]; [0; 0; 0]; [6; 0; 9]] /\
   sp_nvecs_tnt (mkSp [1; 1; 1] [[0; 0; 0]] [7]) 2 = None /\
+  sp_nvecs_tnt (mkSp [5] [[0]; [2]; [3]] [2; 1; 3]) 0 = Some (mkCoo [1; 5] [[0; 0]; [0; 2]; [0; 3]] [2; 1; 3]) /\
+  gram_sp_code_path 0 Nat.add Nat.mul (mkSp [3] [[2]; [0]] [2; 3]) 0 = Some [[9; 0; 6]; [0; 0; 0]; [6; 0; 4]] /\
+  sp_nvecs_tnt (mkSp [1] [[0]] [7]) 0 = None /\
+  sp_nvecs_tnt (mkSp [2; 3] [[1; 2]] [7]) 2 = None /\ sp_nvecs_tnt_z (mkSp [2; 3] [[1; 2]] [7]) (-1) = None /\
+  sp_nvecs_tnt_z (mkSp [2; 3] [[1; 2]] [7]) 1 = Some (mkCoo [2; 3] [[1; 2]] [7]) /\
   sp_nvecs_tnt_old 0 (mkSp [1; 4; 3] [[0; 1; 2]; [0; 3; 0]] [2; 1]) 0 = None /\
   sp_nvecs_tnt_old 0 (mkSp [3; 1] [[0; 0]; [2; 0]] [2; 3]) 0 = None.
 Proof. exact sp_path_example. Qed.
@@ -317,6 +386,45 @@ Theorem C14_sign_rule : forall c : list R,
   (c' = c \/ c' = map Ropp c) /\ 0 <= nth i c' 0 /\ forall j, Rabs (nth j c' 0) <= nth i c' 0.
 Proof. exact flip_col_spec. Qed.
 Print Assumptions C14_sign_rule.
+
+(* wave 5 — "so that they capture the maximal energy of the mode-n unfolding" (Proofs/C14KyFan.v; matrices as entry functions on 0..n-1,
+   rs n f = f 0 + ... + f (n-1)).  The energy r orthonormal columns Q capture, |Q^T X_n|_F^2, is trace(Q^T Y Q) for the Gram matrix
+   Y = X_n X_n^T … *)
+Theorem C14_captured_is_energy : forall (n r K : nat) (Y X Q : nat -> nat -> R),
+  (forall a b, (a < n)%nat -> (b < n)%nat -> Y a b = rs K (fun c => X a c * X b c)) ->
+  captured n r Y Q = rs r (fun j => rs K (fun c => rs n (fun a => Q a j * X a c) * rs n (fun a => Q a j * X a c))).
+Proof. exact captured_is_energy. Qed.
+Print Assumptions C14_captured_is_energy.
+(* … unit eigenvectors V of Y with eigenvalues lam (what nvecs returns: the correspondence certificate-checks exactly these two
+   hypotheses with lam = the r largest eigenvalues) capture lam_0 + ... + lam_{r-1} … *)
+Theorem C14_energy_of_eigenvectors : forall (n r : nat) (Y V : nat -> nat -> R) (lam : nat -> R),
+  (forall j a, (j < r)%nat -> (a < n)%nat -> rs n (fun b => Y a b * V b j) = lam j * V a j) ->
+  (forall j, (j < r)%nat -> rs n (fun a => V a j * V a j) = 1) ->
+  captured n r Y V = rs r lam.
+Proof. exact captured_eigen. Qed.
+Print Assumptions C14_energy_of_eigenvectors.
+(* … and that is the MAXIMUM (Ky Fan): with Y = W diag(mu) W^T, W orthogonal, mu non-increasing, NO r orthonormal columns Q capture
+   more than mu_0 + ... + mu_{r-1} *)
+Theorem C14_max_energy : forall (n r : nat) (Y W Q : nat -> nat -> R) (mu : nat -> R),
+  (forall j k, (j < r)%nat -> (k < r)%nat -> rs n (fun a => Q a j * Q a k) = delta j k) ->
+  (forall i, (i < n)%nat -> rs n (fun a => W a i * W a i) = 1) ->
+  (forall a b, (a < n)%nat -> (b < n)%nat -> rs n (fun i => W a i * W b i) = delta a b) ->
+  (forall a b, (a < n)%nat -> (b < n)%nat -> Y a b = rs n (fun i => mu i * W a i * W b i)) ->
+  (forall i k, (i <= k)%nat -> (k < n)%nat -> mu k <= mu i) ->
+  (r <= n)%nat -> captured n r Y Q <= rs r mu.
+Proof. exact kyfan_matrix. Qed.
+Print Assumptions C14_max_energy.
+(* the extremal inequality itself: weights 0 <= c_i <= 1 summing to r against non-increasing eigenvalues *)
+Theorem C14_kyfan_weights : forall (mu c : list R) (r : nat),
+  StronglySorted Rge mu -> length mu = length c -> (r <= length mu)%nat ->
+  Forall (fun x => 0 <= x <= 1) c -> rsum c = INR r -> wsum mu c <= rsum (firstn r mu).
+Proof. exact kyfan_weights. Qed.
+Print Assumptions C14_kyfan_weights.
+Example C14_example_max_energy :
+  let Y := fun a b : nat => match a, b with O, O => 5 | S O, S O => 1 | _, _ => 0 end in
+  let Q := fun a j : nat => match a, j with O, O => 3/5 | S O, O => 4/5 | _, _ => 0 end in
+  captured 2 1 Y Q = 61/25 /\ rs 1 (fun i => match i with O => 5 | _ => 1 end) = 5.
+Proof. exact kyfan_matrix_example. Qed.
 
 Example C14_example :
   argsort_desc_abs Rabs Rltb [1; -5; 3] = [1; 2; 0]%nat /\ flip_col 0 Rabs Ropp Rltb [1; -2] = [-1; 2].
